@@ -557,15 +557,20 @@ def t_fixed(ctx):
                         'partitions, pure and fast reference')
 
 
+# (the server's key is whatever RSA key it has: other public exponents than
+# F4 are as valid - '<bits>e<e>' names the fixture modulus with exponent e)
+KEYS = [1024, 2048, '2048e3', '2048e17', '1024e257', '1024e65539']
+
+
 def t_rsa(ctx, n):
-    for bits in (1024, 2048):
+    for bits in KEYS:
         for tl in (1, 4, 16, 64):
             rsa_case(ctx, {'bits': bits, 'token': bytes(range(tl)),
                            'secret': bytes(16)})
             rsa_case(ctx, {'bits': bits, 'token': b'\x00' * tl,
                            'secret': b'\x00' * 16})
     strat = st.fixed_dictionaries({
-        'bits': st.sampled_from([1024, 2048]),
+        'bits': st.sampled_from(KEYS),
         'token': st.binary(min_size=1, max_size=64),
         'secret': st.binary(min_size=16, max_size=16)})
 
@@ -627,7 +632,8 @@ def tasks(tier):
         tl.append(('installed_%d' % i, t_installed,
                    dict(n=100 if q else 3000)))
     for i, (v, b) in enumerate([(757, 1024), (47, 2048), (340, 1024),
-                                (578, 1024)]):
+                                (578, 1024), (757, '2048e3'),
+                                (340, '1024e257')]):
         tl.append(('logins_%d' % i, t_logins,
                    dict(k=24 if q else 200, version=v, bits=b)))
     return tl
